@@ -131,7 +131,7 @@ def i_LDI(i_, fmap):
 def i_LDIR(i_, fmap):
     i_LDI(i_, fmap)
     fmap[pf] = bit0
-    if fmap[bc] != bit0:
+    if fmap[bc] != 0:
         fmap[pc] = fmap[pc] - i_.length
 
 
@@ -149,7 +149,7 @@ def i_LDD(i_, fmap):
 def i_LDDR(i_, fmap):
     i_LDD(i_, fmap)
     fmap[pf] = bit0
-    if fmap[bc] != bit0:
+    if fmap[bc] != 0:
         fmap[pc] = fmap[pc] - i_.length
 
 
